@@ -682,6 +682,11 @@ PROPS["C14"] = dict(
           timeout=1500),
         K("c14", "c14_fen_castle_field_total", desc="castle-field parser total on <= 5 ASCII bytes", functions=["ArrayMap<Color,CastleRights>::try_parse"]),
         K("c14", "c14_fen_piece_letter_total", desc="PieceIndex::try_parse total and exact on all chars", functions=["PieceIndex::try_parse"]),
+        K("c11", "c11_reader_en_passant_field_contract", desc="(shared with C11) the FEN reader after its regex gate (function tail extracted verbatim), every en-passant "
+          "field the regex admits (all 64 squares, both sides to move): no panic, exactly the spelled square", functions=["<Fen as TryFromNotation<State>>::try_from_notation (after Regex::captures)"], timeout=2400),
+        K("c11", "c11_reader_dashes_contract", desc="(shared with C11) the reader tail on the dash forms: no panic", functions=["<Fen as TryFromNotation<State>>::try_from_notation (after Regex::captures)"], timeout=2400),
+        K("c11", "c11_reader_clock_fields_contract", desc="(shared with C11) the reader tail on three-digit clocks: no panic, exactly the spelled numbers",
+          functions=["<Fen as TryFromNotation<State>>::try_from_notation (after Regex::captures)"], timeout=2400),
         K("uci", "c14_uci_go_args_total", kind="bounded", bound="<= 3 argument tokens of <= 5 bytes each (ASCII plus one arbitrary wide char)",
           desc="the argument parser of the `go` arm (block extracted verbatim from Client::exec, println! bound to a buffer): total on arbitrary tokens; "
           "`depth N` / `movetime N` with decimal N set exactly those limits", functions=["Client::exec, `go` argument parser (extracted)"], timeout=2400),
